@@ -147,6 +147,7 @@ func checkC16(c *Ctx) {
 
 	// ---- R5 package identity
 	checkPackageIdentity(c, "C16.R5.package-identity", pk)
+	checkImportsIndexed(c, "C16.R6.imports-indexed", pk)
 }
 
 func checkCompositeKinds(c *Ctx, pk *packages.Package) {
